@@ -1,6 +1,7 @@
 """Shared key-decoding rules (C01 anchor, C08, C10)."""
 from ops import find_impl_fn, Run
 from norm import fn as fmt_n
+from termutil import pin_of
 
 def modulus_guard(world, crate, kind, bits):
     """Every success path of HasKey<kind>::decode passes `n.bits() == bits` for the key it returns."""
@@ -15,11 +16,9 @@ def modulus_guard(world, crate, kind, bits):
     for r in oks:
         found = False
         for g in r.path.guards:
-            c = run.norm.n(g["cond"])
-            if isinstance(c, tuple) and c[0] == "binop" and c[1] in ("Ne", "Eq") and "BigUint::bits" in repr(c[2]) and c[3] == ("int", bits):
-                taken_eq = (c[1] == "Ne" and g["value"] == 0) or (c[1] == "Eq" and g["value"] == 1)
-                if taken_eq:
-                    found = True
+            pin = pin_of(run.norm.n(g["cond"]), g["value"], g.get("arms"))
+            if pin and "BigUint::bits" in repr(pin[0]) and pin[1] == bits and pin[2]:
+                found = True
         if not found:
             conds = [fmt_n(run.norm.n(g["cond"]))[:120] for g in r.path.guards if "bits" in repr(run.norm.n(g["cond"]))]
             probs.append(f"a success path is not guarded by modulus bits == {bits} (size tests on the path: {conds})")
@@ -43,10 +42,9 @@ def accepted_widths(run, r, param="bytes"):
     nm = run.norm
     # whole-length guards
     for g in r.path.guards:
-        c = nm.n(g["cond"])
-        if isinstance(c, tuple) and c[0] == "binop" and c[1] in ("Ne", "Eq") and c[2] == ("len", base) and c[3][0] == "int":
-            if (c[1] == "Ne" and g["value"] == 0) or (c[1] == "Eq" and g["value"] == 1):
-                return {c[3][1]}
+        pin = pin_of(nm.n(g["cond"]), g["value"], g.get("arms"))
+        if pin and pin[0] == ("len", base) and pin[2]:
+            return {pin[1]}
     for e in r.path.events:
         k = e["kind"]
         tgt = e.get("target")
